@@ -251,7 +251,13 @@ let split_n (s : string) (n : int) : string list =
     | Some i -> String.sub s 0 i :: go (String.sub s (i + 1) (String.length s - i - 1)) (k - 1) in
   go s n
 
-let run_op (h : hstate) (op : string) : string =
+let rec run_op (h : hstate) (op : string) : string =
+  (* `@t/OP`: the model is sequential - the thread name is ignored *)
+  if String.length op > 0 && op.[0] = '@' then
+    (match String.index_opt op '/' with
+     | Some i -> run_op h (String.sub op (i + 1) (String.length op - i - 1))
+     | None -> "?UNSUPPORTED")
+  else
   let b = !builtins in
   match String.split_on_char ':' op with
   | ["LEX"; x] ->
@@ -292,10 +298,23 @@ let run_op (h : hstate) (op : string) : string =
   | ["EXEC"; ctx; x] ->
     let c = n_of_int (int_of_string ctx) in
     let st0 = api_clear_log h.st in
-    let st0 = { st0 with s_inexact = false } in
+    (* the ghost flag is sticky within a history: a quotient stored in a context keeps its unmodelled scale *)
     let (r, st) = api_h_exec b st0 (str_of_hex x) c in
     h.st <- st;
     pr_eres r ^ ":" ^ pr_log st ^ ":" ^ pr_ctx st c ^ ":" ^ (if st.s_inexact then "I" else "E")
+  | ["CONV"; _ty; num] -> "OK:" ^ pr_value (from_int (z_of_hex num))
+  | "ACC" :: which :: rest ->
+    let v = value_of_string (String.concat ":" rest) in
+    (match which with
+     | "integer" -> (match v_integer v with Ok z -> "OK:" ^ hex_of_z z | _ -> "ERR")
+     | "decimal" -> (match v_decimal v with Ok d -> "OK:" ^ pr_dec d | _ -> "ERR")
+     | "string" -> (match v_string v with Ok s -> "OK:" ^ hex_of_str s | _ -> "ERR")
+     | "bool" -> (match v_bool v with Ok b -> "OK:" ^ (if b then "1" else "0") | _ -> "ERR")
+     | "list" -> (match v_list v with Ok l -> "OK:" ^ pr_value (VList l) | _ -> "ERR")
+     | _ -> "?")
+  | "RTV" :: rest -> "OK:" ^ pr_value (value_of_string (String.concat ":" rest))
+  | ["||"] -> "||"
+  | ["PROBE"; _; _] -> "-"
   | ["CD"; ctx] -> pr_ctx h.st (n_of_int (int_of_string ctx))
   | ["SD"; kind; name] ->
     let n = str_of_hex name in
